@@ -479,6 +479,39 @@ fn replay_exact(idx: usize, c: &Value, rep: &mut Report, perturb: usize) {
     }
 }
 
+/// exact run with a changing box height (spec/kalman/KalmanExactH.tla): box filter only
+fn exact_height(c: &Value, perturb: usize) -> Mis {
+    let xs: Vec<f32> = jarr(c, "x").iter().map(|v| ji(v) as f32).collect();
+    let hs: Vec<f32> = jarr(c, "hs").iter().map(|v| ji(v) as f32).collect();
+    let (wp, wv) = (rat(jget(c, "wp")), rat(jget(c, "wv")));
+    let f = Universal2DBoxKalmanFilter::new(wp as f32, wv as f32);
+    let bx = |x: f32, h: f32| Universal2DBox::new(x, 50.0, None, 0.5, h);
+    let s0 = f.initiate(&bx(xs[0], hs[0]));
+    let s1 = f.predict(&s0);
+    let s2 = f.update(&s1, &bx(xs[1], hs[1]));
+    let raw2 = s2.verif_raw();
+    if let Some(m) = cmp_exact("box:x", 2, coord(&raw2, 0, 5), jget(c, "x2"), perturb) {
+        return Some(m);
+    }
+    if let Some(m) = cmp_exact("box:height", 2, coord(&raw2, 4, 5), jget(c, "h2"), perturb) {
+        return Some(m);
+    }
+    let s3 = f.predict(&s2);
+    let raw3 = s3.verif_raw();
+    if let Some(m) = cmp_exact("box:x", 3, coord(&raw3, 0, 5), jget(c, "x3"), perturb) {
+        return Some(m);
+    }
+    if let Some(m) = cmp_exact("box:height", 3, coord(&raw3, 4, 5), jget(c, "h3"), perturb) {
+        return Some(m);
+    }
+    let d = f.distance(s3, &bx(xs[2], hs[2])) as f64;
+    let e = rat(jget(c, "d")) * if perturb == 1 { 1.01 } else { 1.0 };
+    if !near(d, e, 1e-4) {
+        return Some(("box:exact:distance(changing height)".into(), json!({"spec": e, "impl": d})));
+    }
+    None
+}
+
 pub fn replay_case(idx: usize, c: &Value, rep: &mut Report, perturb: usize) {
     rep.cases += 1;
     rep.sample(c);
@@ -494,6 +527,15 @@ pub fn replay_case(idx: usize, c: &Value, rep: &mut Report, perturb: usize) {
         "exact" => {
             rep.count("exact_cases", 1);
             replay_exact(idx, c, rep, perturb)
+        }
+        "exacth" => {
+            rep.count("exact_height_cases", 1);
+            rep.nontrivial += 1;
+            match std::panic::catch_unwind(|| exact_height(c, perturb)) {
+                Ok(None) => {}
+                Ok(Some((sig, d))) => rep.mismatch(&sig, idx, c, d),
+                Err(_) => rep.mismatch("exacth:panic", idx, c, json!({})),
+            }
         }
         o => panic!("kind {}", o),
     }
